@@ -128,26 +128,27 @@ Section Generic.
 
   Lemma bigInt_val x : bigInt I x = val x. Proof. reflexivity. Qed.
 
+  Ltac ifs := repeat match goal with |- context [if ?c then _ else _] => destruct c eqn:? end.
   Ltac range32 := unfold in_int32, in_int64, min_int32, max_int32, min_int64, max_int64 in *.
 
   Lemma Add_ok x y : canon x = true -> canon y = true -> res_is (Add I x y) (val x + val y).
   Proof.
     intros Hx Hy. unfold Add, res_is. arms x Hx; arms y Hy; rewrite G, G0; cbn [either_big is_some orb];
-      rewrite ?bigInt_val; try apply MakeBigInt_ok.
+      change (bigInt I x) with (val x); change (bigInt I y) with (val y); try apply MakeBigInt_ok.
     rewrite wrap64_id by (range32; lia). apply MakeInt64_ok.
   Qed.
 
   Lemma Sub_ok x y : canon x = true -> canon y = true -> res_is (Sub I x y) (val x - val y).
   Proof.
     intros Hx Hy. unfold Sub, res_is. arms x Hx; arms y Hy; rewrite G, G0; cbn [either_big is_some orb];
-      rewrite ?bigInt_val; try apply MakeBigInt_ok.
+      change (bigInt I x) with (val x); change (bigInt I y) with (val y); try apply MakeBigInt_ok.
     rewrite wrap64_id by (range32; lia). apply MakeInt64_ok.
   Qed.
 
   Lemma Mul_ok x y : canon x = true -> canon y = true -> res_is (Mul I x y) (val x * val y).
   Proof.
     intros Hx Hy. unfold Mul, res_is. arms x Hx; arms y Hy; rewrite G, G0; cbn [either_big is_some orb];
-      rewrite ?bigInt_val; try apply MakeBigInt_ok.
+      change (bigInt I x) with (val x); change (bigInt I y) with (val y); try apply MakeBigInt_ok.
     rewrite wrap64_id by (range32; nia). apply MakeInt64_ok.
   Qed.
 
@@ -190,19 +191,19 @@ Section Generic.
   Lemma Or_ok x y : canon x = true -> canon y = true -> res_is (Or I x y) (Z.lor (val x) (val y)).
   Proof.
     intros Hx Hy. unfold Or, res_is. arms x Hx; arms y Hy; rewrite G, G0; cbn [either_big is_some orb];
-      rewrite ?bigInt_val; try apply MakeBigInt_ok.
+      change (bigInt I x) with (val x); change (bigInt I y) with (val y); try apply MakeBigInt_ok.
     apply small_ok. apply int32_lor; assumption.
   Qed.
   Lemma And_ok x y : canon x = true -> canon y = true -> res_is (And I x y) (Z.land (val x) (val y)).
   Proof.
     intros Hx Hy. unfold And, res_is. arms x Hx; arms y Hy; rewrite G, G0; cbn [either_big is_some orb];
-      rewrite ?bigInt_val; try apply MakeBigInt_ok.
+      change (bigInt I x) with (val x); change (bigInt I y) with (val y); try apply MakeBigInt_ok.
     apply small_ok. apply int32_land; assumption.
   Qed.
   Lemma Xor_ok x y : canon x = true -> canon y = true -> res_is (Xor I x y) (Z.lxor (val x) (val y)).
   Proof.
     intros Hx Hy. unfold Xor, res_is. arms x Hx; arms y Hy; rewrite G, G0; cbn [either_big is_some orb];
-      rewrite ?bigInt_val; try apply MakeBigInt_ok.
+      change (bigInt I x) with (val x); change (bigInt I y) with (val y); try apply MakeBigInt_ok.
     apply small_ok. apply int32_lxor; assumption.
   Qed.
 
@@ -217,16 +218,17 @@ Section Generic.
   Qed.
 
   Lemma Lsh_ok x n : 0 <= n -> res_is (Lsh I x n) (val x * 2 ^ n).
-  Proof. intros Hn. unfold Lsh, res_is. rewrite bigInt_val, Z.shiftl_mul_pow2 by assumption. apply MakeBigInt_ok. Qed.
+  Proof. intros Hn. unfold Lsh, res_is. change (bigInt I x) with (val x); rewrite Z.shiftl_mul_pow2 by assumption. apply MakeBigInt_ok. Qed.
 
   Lemma Rsh_ok x n : 0 <= n -> res_is (Rsh I x n) (val x / 2 ^ n).
-  Proof. intros Hn. unfold Rsh, res_is. rewrite bigInt_val, Z.shiftr_div_pow2 by assumption. apply MakeBigInt_ok. Qed.
+  Proof. intros Hn. unfold Rsh, res_is. change (bigInt I x) with (val x); rewrite Z.shiftr_div_pow2 by assumption. apply MakeBigInt_ok. Qed.
 
   Lemma Sign_ok x : canon x = true -> Sign I x = sign_of (val x).
   Proof.
     intros Hx. unfold Sign, sign_of, signum64. arms x Hx; rewrite G.
-    - lia.
-    - pose proof (Z.sgn_spec (val x)). lia.
+    - destruct (val x <? 0) eqn:A; [reflexivity|]. destruct (0 <? val x) eqn:B; destruct (val x =? 0) eqn:C; lia.
+    - pose proof (Z.sgn_spec (val x)).
+      destruct (val x <? 0) eqn:A; [lia|]. destruct (val x =? 0) eqn:C; lia.
   Qed.
 
   (* ---------- floored division from truncated division: the correction step *)
@@ -258,9 +260,9 @@ Section Generic.
 
   Lemma Div_ok x y : canon x = true -> canon y = true -> val y <> 0 -> res_is (Div I x y) (val x / val y).
   Proof.
-    intros Hx Hy Hnz. unfold Div, res_is.
+    intros Hx Hy Hnz. unfold Div, res_is. cbv zeta.
     pose proof (floor_correction (val x) (val y) Hnz) as [FQ _]. cbv zeta in FQ.
-    arms x Hx; arms y Hy; rewrite G, G0; cbn [either_big is_some orb]; rewrite ?bigInt_val.
+    arms x Hx; arms y Hy; rewrite G, G0; cbn [either_big is_some orb]; change (bigInt I x) with (val x); change (bigInt I y) with (val y).
     2,3,4: rewrite !sgn_ltb, sgn_eqb, FQ; apply MakeBigInt_ok.
     assert (Q : in_int64 (Z.quot (val x) (val y)) = true).
     { pose proof (quot_bound (val x) (val y) Hnz). range32. lia. }
@@ -274,9 +276,9 @@ Section Generic.
 
   Lemma Mod_ok x y : canon x = true -> canon y = true -> val y <> 0 -> res_is (Mod I x y) (val x mod val y).
   Proof.
-    intros Hx Hy Hnz. unfold Mod, res_is.
+    intros Hx Hy Hnz. unfold Mod, res_is. cbv zeta.
     pose proof (floor_correction (val x) (val y) Hnz) as [_ FR]. cbv zeta in FR.
-    arms x Hx; arms y Hy; rewrite G, G0; cbn [either_big is_some orb]; rewrite ?bigInt_val.
+    arms x Hx; arms y Hy; rewrite G, G0; cbn [either_big is_some orb]; change (bigInt I x) with (val x); change (bigInt I y) with (val y).
     2,3,4: rewrite !sgn_ltb, sgn_eqb, FR; apply MakeBigInt_ok.
     assert (Rm : in_int64 (Z.rem (val x) (val y)) = true).
     { pose proof (Z.rem_bound_abs (val x) (val y) Hnz). range32. lia. }
@@ -292,9 +294,9 @@ Section Generic.
     Cmp I x y = cmp_to_int (Z.compare (val x) (val y)).
   Proof.
     intros Hx Hy. unfold Cmp. arms x Hx; arms y Hy; rewrite G, G0; cbn [either_big is_some orb];
-      rewrite ?bigInt_val; try reflexivity.
+      change (bigInt I x) with (val x); change (bigInt I y) with (val y); try reflexivity.
     rewrite wrap64_id by (range32; lia). unfold signum64, cmp_to_int.
-    destruct (Z.compare_spec (val x) (val y)); lia.
+    destruct (Z.compare_spec (val x) (val y)); ifs; lia.
   Qed.
 
   Lemma Compare_ok c x y : canon x = true -> canon y = true ->
@@ -339,23 +341,23 @@ Section Generic.
     - apply Mul_ok; assumption.
     - rewrite (Sign_ok y Hy). unfold sign_of.
       destruct (val y =? 0) eqn:E.
-      + assert (Z0 : (val y <? 0) = false) by lia. rewrite Z0. cbn. exact I.
+      + assert (Z0 : (val y <? 0) = false) by lia. rewrite Z0. cbn. exact Logic.I.
       + destruct (val y <? 0); cbn; apply Div_ok; try assumption; lia.
     - rewrite (Sign_ok y Hy). unfold sign_of.
       destruct (val y =? 0) eqn:E.
-      + assert (Z0 : (val y <? 0) = false) by lia. rewrite Z0. cbn. exact I.
+      + assert (Z0 : (val y <? 0) = false) by lia. rewrite Z0. cbn. exact Logic.I.
       + destruct (val y <? 0); cbn; apply Mod_ok; try assumption; lia.
     - apply And_ok; assumption.
     - apply Or_ok; assumption.
     - apply Xor_ok; assumption.
     - rewrite (AsInt32_ok y Hy). destruct (in_int32 (val y)) eqn:E.
-      + destruct (val y <? 0) eqn:N; cbn [orb]; [exact I|].
-        destruct (512 <=? val y) eqn:L; [exact I|]. apply Lsh_ok. lia.
-      + assert (F : (val y <? 0) || (512 <=? val y) = true) by (range32; lia). rewrite F. exact I.
+      + destruct (val y <? 0) eqn:N; cbn [orb]; [exact Logic.I|].
+        destruct (512 <=? val y) eqn:L; [exact Logic.I|]. apply Lsh_ok. lia.
+      + assert (F : (val y <? 0) || (512 <=? val y) = true) by (range32; lia). rewrite F. exact Logic.I.
     - rewrite (AsInt32_ok y Hy). destruct (in_int32 (val y)) eqn:E.
-      + destruct (val y <? 0) eqn:N; cbn [orb]; [exact I|].
+      + destruct (val y <? 0) eqn:N; cbn [orb]; [exact Logic.I|].
         assert (F : (max_int32 <? val y) = false) by (range32; lia). rewrite F. apply Rsh_ok. lia.
-      + assert (F : (val y <? 0) || (max_int32 <? val y) = true) by (range32; lia). rewrite F. exact I.
+      + assert (F : (val y <? 0) || (max_int32 <? val y) = true) by (range32; lia). rewrite F. exact Logic.I.
   Qed.
 
   Lemma zero_ok : res_is (zero I) 0.
@@ -380,6 +382,6 @@ Section Generic.
     pose proof (Z.div_mod (val x) (val y) Hnz).
     pose proof (Z.mod_pos_bound (val x) (val y)). pose proof (Z.mod_neg_bound (val x) (val y)).
     unfold sign_of. split; [lia|]. split; [|lia].
-    destruct (val x mod val y =? 0) eqn:E; [left; lia|right]. lia.
+    destruct (val x mod val y =? 0) eqn:E; [left; lia|right]. ifs; lia.
   Qed.
 End Generic.
